@@ -63,3 +63,17 @@ example (m : Move) (hm : m ∈ genPseudo (bd kiwipete)) :
   hash_incremental_generated (by decide +kernel) hm
 
 end Inkayaku.C06Gen
+
+namespace Inkayaku.C06Gen
+open Inkayaku.Gen
+
+/-- the e.p. key of the CODE depends on the file of the square only (all 64 squares of the current build): this ties the
+8-entry key list used by the model and by `hash_ep_file` to `Zobrist::en_passant_square_hash` -/
+theorem ep_key_by_file :
+    zobristEnPassantBySquare.length = 64 ∧
+    (List.range 64).all (fun sq => zobristEnPassantBySquare.getD sq 0 == zobristEnPassant.getD (sq % 8) 0) = true := by
+  decide +kernel
+
+#print axioms ep_key_by_file
+
+end Inkayaku.C06Gen
